@@ -85,6 +85,15 @@ CHECKS = {
         note="Trusted: the ideal-cryptography assumption (DESIGN.md 4.2) - real X25519/Ed25519/ChaCha20/HKDF reject every non-genuine "
              "value; sampled paths are replayed with real crypto on the real library. CoAP key installation not covered.",
         design="DESIGN.md section 5 C01"),
+    "C03": dict(
+        text="The real perform_pair_setup_part1/part2 generators run against an ideal-crypto accessory/adversary (ideal SRP, AEAD, "
+             "HKDF, Ed25519): every subset of M2 fields, M4 proof variants (right, wrong-code accessory, arbitrary symbolic bytes, "
+             "truncated, absent) and M6 variants (honest, arbitrary, truncated, wrong key label, wrong nonce, every incomplete or "
+             "wrongly signed sub-TLV under the right key). Proved: data is returned iff the exchange is fully authenticated, the "
+             "returned record is self-consistent, a conformant accessory accepts M3 and M5.",
+        note="Trusted: ideal cryptography incl. ideal SRP (real SRP values are C02); sampled paths replayed with the repository's "
+             "SrpServer and real Ed25519/ChaCha20/HKDF on the real library. Transport drivers not covered.",
+        design="DESIGN.md section 5 C03"),
 }
 
 NOT_APPLICABLE = {
